@@ -53,6 +53,15 @@ chk("C09", "model_checking", "explicit-state BFS over channel-plan histories wit
     "Trusted: refregion.rs (most permissive EIRP of set-valued entries). Explored on the nb front-end (channel selection and power are shared MAC code).",
     "DESIGN.md §3 C09")
 
+chk("C11", "model_checking", "exhaustive JoinAccept value sweep from several pre-histories + explicit-state BFS over join histories, reference codec/region as oracle",
+    "(A) every JoinAccept content (all 256 DLSettings x RxDelay x CFList variants incl. RFU types, zero / out-of-band frequencies, masks; boundary JoinNonce/NetID/DevAddr/DevNonce) is delivered in RX1 or RX2 to a fresh device, after a failed attempt and as a re-join from a joined state, followed by the first uplink. (B) BFS over histories of join attempts (none, valid RX1/RX2, bad MIC, wrong key, wrong length, replayed accept, data frame, bad-then-valid) interleaved with uplinks on nb, async and async+Class C. Oracle: JoinRequest bytes, joined iff the reference verifies the MIC, session keys = reference derivation with the DevNonce just sent, address, counters restarted, RxDelay/DLSettings/CFList applied iff valid per the regional tables, configuration untouched otherwise, first uplink verifies under the derived keys.",
+    "Trusted: refcodec/refcrypto/refregion. RX2 rates the region defines but the stack lacks may be ignored; out-of-band CFList entries may be ignored or remove the channel.",
+    "DESIGN.md §3 C11")
+chk("C12", "model_checking", "complete reachable-state graph by BFS with O(1) state restoration through Session serde, executable reference model in lock-step",
+    "The complete graph of (data rate, ADR flag, ADR counter, owed ACK, last-uplink-confirmed, downlink-seen) reachable from a fresh session is explored per region and front-end; each state is restored on a fresh real device via Session (de)serialisation and public setters and one event is applied (uplink with each receive outcome incl. Class C downlinks, set_adr, set_datarate). The counter dimension is followed past every back-off step (over 300 uplinks). A reference model predicts DevAddr, MType, ACK, ADR and ADRACKReq bits and the data rate of every uplink; candidates are carried where the statement admits several behaviours.",
+    "Trusted: refcodec for header decoding, refregion for the set of defined rates, the Session serde restore (C20 checks it). Frame counters are normalised in the state key (argued irrelevant to this property).",
+    "DESIGN.md §3 C12")
+
 ALL = ["C%02d" % i for i in range(1, 21)]
 NA_REASON = "check not built yet in this round; see DESIGN.md for the planned bounded exploration"
 
